@@ -22,6 +22,9 @@ pub struct Case {
     pub at: usize,
     pub cmds: Vec<String>,
     pub schedule: Vec<u16>,
+    /// node on which an arbiter client of database r stays connected during the commands (None = no arbiter connected)
+    #[serde(default)]
+    pub arbiter_at: Option<usize>,
 }
 
 fn conflict_id(c: &Cluster) -> Option<(String, i32)> {
@@ -58,6 +61,16 @@ pub fn run_case(ctx: &Ctx, case: &Case) -> Outcome {
     if !c.run(&mut |_| 0, 400_000) {
         fail = Some(("C14|set-up".into(), "no quiescence after set-up".into()));
     }
+    let mut arbiter_on_secondary = false;
+    if let (Some(a), None) = (case.arbiter_at, &fail) {
+        let a = a % case.n;
+        arbiter_on_secondary = a != 0;
+        let sid = c.open_session(a);
+        c.session_send(sid, vec![auth.clone(), "use-db r rtok".into(), "arbiter".into()]);
+        if !c.run(&mut |_| 0, 400_000) {
+            fail = Some(("C14|set-up".into(), "no quiescence after the arbiter connected".into()));
+        }
+    }
     let at = case.at % case.n;
     let secondaries = case.n - 1;
     let mut choose = chooser(case.schedule.clone());
@@ -78,15 +91,39 @@ pub fn run_case(ctx: &Ctx, case: &Case) -> Outcome {
         let mark = c.delivered.len();
         let lines = if line.starts_with("use-db") { vec![auth.clone(), line.clone()] } else { vec![auth.clone(), format!("use-db {} {}", db, tok), line.clone()] };
         c.client(at, lines);
-        let quiet = c.run(&mut choose, STEP_BUDGET);
+        // in slices: an exchange whose messages keep growing is stopped by a byte budget (8 MB for one client command)
+        // long before it exhausts the memory
+        let mut quiet = false;
+        let mut steps_left = STEP_BUDGET;
+        while steps_left > 0 {
+            let slice = steps_left.min(400);
+            steps_left -= slice;
+            let first = steps_left + slice == STEP_BUDGET;
+            if if first { c.run(&mut choose, slice) } else { c.run_continue(&mut choose, slice) } {
+                quiet = true;
+                break;
+            }
+            let bytes: usize = c.delivered[mark..].iter().map(|m| m.line.len()).sum();
+            if bytes > 8 << 20 || c.runaway_line {
+                break;
+            }
+        }
         let msgs: Vec<&crate::cluster::Msg> = c.delivered[mark..].iter().collect();
         let word = line.split(' ').next().unwrap_or("").to_string();
-        let role = if at == 0 { "on-primary" } else { "on-secondary" };
+        let role = if at == 0 {
+            "on-primary"
+        } else if case.arbiter_at.map(|a| a % case.n) == Some(at) {
+            "on-secondary-with-the-arbiter-connected-there"
+        } else if case.arbiter_at.map(|a| a % case.n != 0).unwrap_or(false) {
+            "on-secondary-with-the-arbiter-on-another-secondary"
+        } else {
+            "on-secondary"
+        };
         if !quiet {
             // find the repeating part of the trace
             let tail: Vec<String> = c.delivered.iter().rev().take(12).map(|m| format!("n{}->n{} {}", m.from, m.to, m.line.trim_end())).collect();
             let _ = role;
-            fail = Some((format!("C14|traffic-does-not-stop|{}", word), format!("{:?} at n{}: still exchanging messages after {} scheduler steps ({} lines delivered); last lines (newest first): {:?}", line, at, STEP_BUDGET, msgs.len(), tail)));
+            fail = Some((format!("C14|traffic-does-not-stop|{}", word), format!("{:?} at n{}: still exchanging messages after {} scheduler steps ({} lines, {} bytes delivered); last lines (newest first): {:?}", line, at, STEP_BUDGET - steps_left, msgs.len(), msgs.iter().map(|m| m.line.len()).sum::<usize>(), tail.iter().map(|l| l.chars().take(300).collect::<String>()).collect::<Vec<_>>())));
             break;
         }
         // commands: lines a node sends on a link it opened; acknowledgements travel back on the same link
@@ -119,6 +156,9 @@ pub fn run_case(ctx: &Ctx, case: &Case) -> Outcome {
     if any_traffic {
         out.classes.push("command-caused-inter-node-messages");
     }
+    if arbiter_on_secondary && case.cmds.iter().any(|c| c == "CONFLICT" || c == "RESOLVE") {
+        out.classes.push("conflict-or-resolution-with-the-arbiter-connected-to-a-secondary");
+    }
     out.fail = fail;
     out
 }
@@ -129,7 +169,13 @@ fn all_single() -> Vec<Case> {
         for at in 0..n {
             for cmd in commands() {
                 for schedule in [vec![], vec![40000u16, 0, 0, 20000, 0, 65535, 0, 0, 30000, 0, 0, 0, 50000]] {
-                    v.push(Case { n, at, cmds: vec![cmd.to_string()], schedule });
+                    v.push(Case { n, at, cmds: vec![cmd.to_string()], schedule, arbiter_at: None });
+                }
+            }
+            // conflicts found and resolved while an arbiter client is connected to each node
+            for arb in 0..n {
+                for cmds in [vec!["CONFLICT"], vec!["RESOLVE"], vec!["CONFLICT", "CONFLICT"], vec!["CONFLICT", "RESOLVE"]] {
+                    v.push(Case { n, at, cmds: cmds.iter().map(|s| s.to_string()).collect(), schedule: vec![], arbiter_at: Some(arb) });
                 }
             }
         }
@@ -141,7 +187,7 @@ pub fn run(ctx: &Ctx, rep: &mut Report) {
     enumerate(ctx, rep, "every-command-on-every-node", all_single().into_iter(), |c| run_case(ctx, c));
     if rep.failures.is_empty() {
         let n = ctx.amount(600, 20_000);
-        let strat = (2..4usize, 0..3usize, prop::collection::vec(select(commands()), 2..4), prop::collection::vec(prop_oneof![3 => Just(0u16), 1 => any::<u16>()], 0..40)).prop_map(|(n, at, cmds, schedule)| Case { n, at, cmds: cmds.into_iter().map(|s| s.to_string()).collect(), schedule });
+        let strat = (2..4usize, 0..3usize, prop::collection::vec(select(commands()), 2..4), prop::collection::vec(prop_oneof![3 => Just(0u16), 1 => any::<u16>()], 0..40), prop_oneof![2 => Just(None), 1 => (0..3usize).prop_map(Some)]).prop_map(|(n, at, cmds, schedule, arbiter_at)| Case { n, at, cmds: cmds.into_iter().map(|s| s.to_string()).collect(), schedule, arbiter_at });
         explore_with(ctx, rep, "command-sequences", n, 150, strat, |c| run_case(ctx, c));
     }
 }
